@@ -164,6 +164,11 @@ class SkBaseTransformStacking(SkBaseTransform):
         if "method" in values:
             self.method = values["method"]
             del values["method"]
+        # parameters received as **kwargs by the constructor
+        own = {k: v for k, v in values.items() if k in self.P.Keys}
+        if own:
+            SkBaseTransform.set_params(self, **own)
+            values = {k: v for k, v in values.items() if k not in own}
         for k, v in values.items():
             if not k.startswith("models_"):
                 raise ValueError(f"Parameter '{k}' must start with 'models_'.")
